@@ -16,7 +16,7 @@
 # (b) consistency: all sequences <= 3 of lookups of one name with argument variations; equal arguments => equal result
 #     (unless a lookup in between legitimately resolved the name), and a not-found result must not stick.
 # (c) acquisition faults, see ACQ below.
-import hashlib, io, itertools, json, os, re, shutil, sys, tarfile
+import hashlib, io, itertools, json, os, re, shutil, sys, tarfile, time
 
 from verif.core import Check, pmap, run_main, scratch_root, NCPU
 from verif import mesonproc as mp
@@ -505,28 +505,28 @@ def judge_seq(sysv, prov, spv, seq, obs):
 
 
 def part_seq(ck, classes):
-    conss = CONS
-    alpha = list(itertools.product(conss, REQ, AF, [False, True]))
+    alpha = list(itertools.product(CONS, REQ, AF, [False, True]))
     envs = [(s, p) for s in SYS for p in ('none', 'wrap')]
     spv = '2.5'
     nonnative = [a for a in alpha if not a[3]]
-    # depth-3 alphabet per environment (None = stop at depth 2).  quick: depth 3 only where the outcomes are richest;
+    # depth-3 alphabet per environment (None = stop at depth 2).  quick: depth 3 only where the outcomes are richest
+    # (system 1.0 + wrap 2.5, constraints none / >=1.5, native: false);
     # thorough: full alphabet with a wrap provider, native: false only without any provider
     if ck.thorough:
         alpha3_of = {e: (alpha if e[1] == 'wrap' else nonnative) for e in envs}
     else:
-        alpha3_of = {e: (nonnative if e == ('1.0', 'wrap') else None) for e in envs}
+        alpha3_of = {e: ([a for a in nonnative if a[0] != '>=3'] if e == ('1.0', 'wrap') else None) for e in envs}
     maxlen = {e: (3 if alpha3_of[e] else 2) for e in envs}
     per_setup = 60
     total = 0
     setups = 0
     lookups = 0
     same_args_pairs = 0
-    fresh_checks = 0
     pruned = 0
     for env in envs:
         sysv, prov = env
-        level = [(a,) for a in alpha]
+        alpha12 = alpha if (ck.thorough or prov == 'wrap') else nonnative     # quick: native: only where a fallback exists
+        level = [(a,) for a in alpha12]
         for n in range(1, maxlen[env] + 1):
             jobs = []
             for k in range(0, len(level), per_setup):
@@ -559,11 +559,12 @@ def part_seq(ck, classes):
                     if total % 4001 == 0:
                         ck.sample({'lookup_sequence': [list(s) for s in seq], 'system': sysv, 'provider': prov, 'observed': [list(x) for x in o]})
             if n < maxlen[env]:
-                ext = alpha3_of[env] if n + 1 == 3 else alpha
+                ext = alpha3_of[env] if n + 1 == 3 else alpha12
                 level = [s + (a,) for s in alive if all(x in ext for x in s) for a in ext]
     ck.part('sequences', sequences=total, setups=setups, lookups=lookups, same_argument_pairs=same_args_pairs,
             prefixes_not_extended_because_they_end_in_error=pruned, alphabet=len(alpha),
             max_len={'%s/%s' % e: v for e, v in maxlen.items()},
+            depth12_alphabet={'%s/%s' % e: (len(alpha) if (ck.thorough or e[1] == 'wrap') else len(nonnative)) for e in envs},
             depth3_alphabet={'%s/%s' % e: (len(v) if v else 0) for e, v in alpha3_of.items()})
     ck.require(same_args_pairs > 50, 'no repeated lookups with equal arguments were observed')
     return total, setups
@@ -1039,16 +1040,22 @@ def main():
     skipped = 0
     runs = 0
     if ck.want('table'):
+        t0 = time.time()
         n, compared, sk, setups = part_table(ck, classes)
+        ck.part('table', wall_s=round(time.time() - t0, 1))
         evals += compared
         skipped += sk
         runs += setups
     if ck.want('seq'):
+        t0 = time.time()
         n, setups = part_seq(ck, classes)
+        ck.part('sequences', wall_s=round(time.time() - t0, 1))
         evals += n
         runs += setups
     if ck.want('acq'):
+        t0 = time.time()
         n, sk, r = part_acq(ck, classes)
+        ck.part('acquisition', wall_s=round(time.time() - t0, 1))
         evals += n - sk
         skipped += sk
         runs += r
